@@ -59,6 +59,9 @@ type c15Scen struct {
 	// while Stop is running - each must end up closed, whether it was refused, or accepted and then shut down
 	AcceptDelayUs int `json:"accept_delay_us,omitempty"`
 	LateDials     int `json:"late_dials,omitempty"`
+	// TightQueue > 0: max_queued_messages = TightQueue, max_inflight 2, inflight_expiry 20 ms - queues overflow all the time,
+	// also those of offline sessions that still hold unacknowledged (soon expired) inflight messages
+	TightQueue int `json:"tight_queue,omitempty"`
 }
 
 // c15Pipelined counts DISCONNECTs with packets behind them (label only).
@@ -71,7 +74,8 @@ func genC15(t *rapid.T) c15Scen {
 	s := c15Scen{Idle: rapid.IntRange(0, 2).Draw(t, "idle"), BadAuth: rapid.IntRange(0, 2).Draw(t, "bad"),
 		StopAt: rapid.SampledFrom([]int{30, 60, 100, 100}).Draw(t, "stopat"), MaxProcs: rapid.SampledFrom([]int{2, 4, 16}).Draw(t, "procs"),
 		Stalled:       rapid.SampledFrom([]int{0, 0, 0, 4, 5}).Draw(t, "stalled"),
-		AcceptDelayUs: rapid.SampledFrom([]int{0, 0, 200, 2000}).Draw(t, "accept_delay"), LateDials: rapid.SampledFrom([]int{0, 3, 8}).Draw(t, "late_dials")}
+		AcceptDelayUs: rapid.SampledFrom([]int{0, 0, 200, 2000}).Draw(t, "accept_delay"), LateDials: rapid.SampledFrom([]int{0, 3, 8}).Draw(t, "late_dials"),
+		TightQueue: rapid.SampledFrom([]int{0, 0, 3, 4}).Draw(t, "tight_queue")}
 	n := rapid.IntRange(4, 12).Draw(t, "nclients")
 	for i := 0; i < n; i++ {
 		cl := c15Client{ID: rapid.IntRange(0, 4).Draw(t, "id"), V: rapid.SampledFrom([]int{4, 5}).Draw(t, "v"), Clean: rapid.Bool().Draw(t, "clean"),
@@ -120,6 +124,12 @@ func runC15(s c15Scen, c *ev.Case) *ev.Violation {
 	cfg := fixture.BaseConfig()
 	cfg.MQTT.MaxQueuedMsg = 20
 	cfg.MQTT.MaxInflight = 5
+	if s.TightQueue > 0 {
+		cfg.MQTT.MaxQueuedMsg = s.TightQueue
+		cfg.MQTT.MaxInflight = 2
+		cfg.MQTT.InflightExpiry = 20 * time.Millisecond
+		c.Label("tight_queue")
+	}
 	plg := &c15Plugin{}
 	var mu sync.Mutex
 	var panics []string
@@ -398,6 +408,12 @@ func runC15(s c15Scen, c *ev.Case) *ev.Violation {
 				done := make(chan struct{})
 				go func() {
 					defer close(done)
+					defer func() {
+						// a panic that reaches the application through an API call (the broker lock may stay held)
+						if r := recover(); r != nil {
+							report(ev.Violf("C15.panic", "API call %q panicked: %v", op, r).With("api", op))
+						}
+					}()
 					id := fmt.Sprintf("id%d", (ai+k)%5)
 					switch op {
 					case "publish":
